@@ -52,13 +52,29 @@ class Forest:
         self.cells = []
         self.nodes = []
 
-    def _cell(self):
-        self.cells.append(dict(held=[], excl=set()))
+    def _cell(self, conv):
+        self.cells.append(dict(held=[], excl=set(), conv=conv))
         return len(self.cells) - 1
 
+    def conv_of(self, node):
+        """does the context carry the naming convention (doc-silent, as implemented: a plain context has the one it
+        was created with / inherited from its parent, a MultiContext its first member's, a LinkedContext its
+        parent's - none without a parent, whatever its target has)"""
+        k = node[0]
+        if k == 'plain':
+            return self.cells[node[1]]['conv']
+        if k == 'multi':
+            return self.conv_of(node[1][0])
+        return self.conv_of(node[2]) if node[2] is not None else False
+
+    def write_conv(self, i):
+        """the convention register_function(<callable>) on context i applies: that of the plain context it ends in"""
+        c = write_cell(self.nodes[i])
+        return self.cells[c]['conv'] if c is not None else False
+
     # ---- construction
-    def root(self):
-        self.nodes.append(('plain', self._cell(), None))
+    def root(self, conv=True):
+        self.nodes.append(('plain', self._cell(conv), None))
         return len(self.nodes) - 1
 
     def can_child(self, i):
@@ -68,7 +84,7 @@ class Forest:
     def child(self, i):
         if not self.can_child(i):
             return None
-        self.nodes.append(('plain', self._cell(), self.nodes[i]))
+        self.nodes.append(('plain', self._cell(self.conv_of(self.nodes[i])), self.nodes[i]))
         return len(self.nodes) - 1
 
     def multi(self, members):
